@@ -139,3 +139,107 @@ Section Spelling.
       is_ws w -> Forall is_ws ws -> spells t cs -> spells_all ts src ->
       spells_all (t :: ts) (w :: ws ++ cs ++ src).
 End Spelling.
+
+(* ------------------------------------------------------------------------- *)
+(* Tight spelling: white space only where the lexer needs it.
+
+   A spelled token is a token with one of its spellings.  Operators may mix raw and escaped
+   characters (`&amp;&`, `<&gt;`, ...).  [follow_bad a w] says that the (entity-decoded) character
+   w directly after the spelling of a would be absorbed into a, or would change it:
+     `*` before `*`;  `|` before `|`;  `&` before `&`;  `<` before `>` `=` `<`;  `>` before `=` `>`;
+     an identifier before a letter, digit, `.` or `_`;  a decimal number before a digit or `.`
+     (and the text `0` before `x`);  a 0x number before a hex digit;  `.5` before a digit.
+   [needs_space a b] looks at the first decoded character of b's spelling. *)
+Fixpoint variants (cs : list Z) : list (list Z) :=
+  match cs with
+  | [] => [[]]
+  | c :: r =>
+      let vs := variants r in
+      map (cons c) vs ++
+      (if (c =? 38) || (c =? 60) || (c =? 62) then map (app (esc_char c)) vs else [])
+  end.
+
+Definition stok : Type := token * list Z.
+
+Definition dec_first (cs : list Z) : Z :=
+  match next_char cs with Some (c, _) => c | None => 0 end.
+Definition starts_dot (cs : list Z) : bool := match cs with c :: _ => c =? 46 | [] => false end.
+Definition is_zero_text (cs : list Z) : bool := match cs with [c] => c =? 48 | _ => false end.
+Definition is_hex_text (cs : list Z) : bool :=
+  match cs with a :: b :: _ => (a =? 48) && (b =? 120) | _ => false end.
+
+Definition follow_bad (a : stok) (w : Z) : bool :=
+  match fst a with
+  | TStar => w =? 42
+  | TOr => w =? 124
+  | TAnd => w =? 38
+  | TLt => (w =? 62) || (w =? 61) || (w =? 60)
+  | TGt => (w =? 61) || (w =? 62)
+  | TIdent _ => is_ident_char w
+  | TFloat _ => if starts_dot (snd a) then is_digit w else is_num_char w
+  | TInteger _ =>
+      if is_hex_text (snd a) then is_hex w
+      else is_num_char w || (is_zero_text (snd a) && (w =? 120))
+  | _ => false
+  end.
+Definition needs_space (a b : stok) : bool := follow_bad a (dec_first (snd b)).
+
+Fixpoint render_min_space (l : list stok) : list Z :=
+  match l with
+  | [] => []
+  | a :: r =>
+      snd a ++
+      match r with
+      | [] => []
+      | b :: _ => if needs_space a b then [32] else []
+      end ++ render_min_space r
+  end.
+
+Section TightSpelling.
+  Variable fops : float_ops.
+
+  Inductive spellx : token -> list Z -> Prop :=
+  | sx_plain t cs : spells fops t cs -> spellx t cs
+  | sx_mixed t cs : is_op t -> In cs (variants (op_chars t)) -> spellx t cs.
+
+  Definition spelled (a : stok) : Prop := spellx (fst a) (snd a).
+
+  (* General source texts: any white space may be put in front of a token and at the end; it MUST
+     be there only between a and b with needs_space a b. *)
+  Inductive spelt : list stok -> list Z -> Prop :=
+  | st_nil ws : Forall is_ws ws -> spelt [] ws
+  | st_cons a r ws src :
+      Forall is_ws ws -> spelled a -> spelt r src ->
+      (match r with
+       | [] => True
+       | b :: _ => needs_space a b = false \/ exists w s, src = w :: s /\ is_ws w
+       end) ->
+      spelt (a :: r) (ws ++ snd a ++ src).
+End TightSpelling.
+
+(* ------------------------------------------------------------------------- *)
+(* Loose printing at token level: [prints c e ts] - ts is a print of e for a position that
+   accepts level >= c, with the necessary parentheses, any number of redundant ones, the function
+   form NEG(x) as well as prefix -x, and an optional unary plus in front of a power-level operand
+   wherever the grammar accepts it. *)
+Inductive prints : nat -> expr -> list token -> Prop :=
+| pt_paren c e ts : prints 0 e ts -> prints c e (TLParen :: ts ++ [TRParen])
+| pt_plus c e ts : (c <= 11)%nat -> prints 12 e ts -> prints c e (TPlus :: ts)
+| pt_if c a b d ta tb td :
+    c = 0%nat -> prints 1 a ta -> prints 0 b tb -> prints 0 d td ->
+    prints c (EIf a b d) (ta ++ TQuestion :: tb ++ TColon :: td)
+| pt_pow c a b ta tb :
+    (c <= 12)%nat -> prints 13 a ta -> prints 11 b tb ->
+    prints c (EBin BPow a b) (ta ++ TDoubleStar :: tb)
+| pt_bin c k a b ta tb :
+    k <> BPow -> (c <= binop_level k)%nat ->
+    prints (binop_level k) a ta -> prints (S (binop_level k)) b tb ->
+    prints c (EBin k a b) (ta ++ binop_tok k :: tb)
+| pt_not c a ta : (c <= 11)%nat -> prints 11 a ta -> prints c (EUn UNot a) (TTilde :: ta)
+| pt_neg c a ta : (c <= 11)%nat -> prints 11 a ta -> prints c (EUn UNeg a) (TMinus :: ta)
+| pt_fun c k a ta :
+    k <> UNot -> prints 0 a ta ->
+    prints c (EUn k a) (TIdent (unop_name k) :: TLParen :: ta ++ [TRParen])
+| pt_int c i : prints c (EInt i) [TInteger i]
+| pt_float c b : prints c (EFloat b) [TFloat b]
+| pt_ident c s : lookup s std_constants = None -> prints c (EIdent s) [TIdent s].
